@@ -155,6 +155,7 @@ def configure_v2(config: dict[str, Any]) -> None:
         # Use last record in restart file
         warm_start_time = np.datetime64(num2date(tvar[-1], tvar.units))
         warm_start_time = warm_start_time.astype("M8[s]")
+        nc.close()
         config["time"]["start"] = warm_start_time
         logging.info("    Warm start at %s", warm_start_time)
 
